@@ -145,6 +145,30 @@ Check (C18_generate_error_located :
     /\ outcome_written (run (scalar_witness f)) = []).
 Print Assumptions C18_generate_error_located.
 
+Check (C18_generate_option_required_first :
+  forall p x0,
+  g_schema_output (pj_gen p) = None -> g_module_specifier (pj_gen p) = false ->
+  generate_body p x0
+  = RErr (plain (s "Option 'schemaOutput' is required for the 'generate' command. ")) (add_run x0 GENERATE)).
+Print Assumptions C18_generate_option_required_first.
+
+Check (C18_generate_schema_printer_error_first :
+  forall p x0 o e,
+  g_schema_output (pj_gen p) = Some o -> g_emit_runtime (pj_gen p) && is_dts (abs_output p (Some o)) = false ->
+  pj_print_schema p = SErr e ->
+  generate_body p x0 = RErr e (add_run x0 GENERATE)).
+Print Assumptions C18_generate_schema_printer_error_first.
+
+Check (C18_generate_option_error_reported_first :
+  forall f, exists texts,
+    run_texts (both_generate_faults_witness f) = Some (1, texts)
+    /\ flat_map (locations_of (s "/w/schema.graphql")) texts = []
+    /\ existsb (fun t => starts_with (s "Option 'schemaOutput' is required") t
+                         || starts_with (s "'check' finished
+Error in command 'generate':
+Option 'schemaOutput' is required") t) texts = true).
+Print Assumptions C18_generate_option_error_reported_first.
+
 Check (C18_json_diagnostics_name_store_files :
   forall p code out err w,
   run p = Exit code out err w -> pj_format p = Json ->
